@@ -73,7 +73,8 @@ pub fn run(run: &Run) {
             continue;
         }
         let (_w, rootn) = root(net, 0, false);
-        let eng = Engine::new(run);
+        let mut eng = Engine::new(run);
+        eng.continue_after_mismatch = true;
         // testnet: stay below the 500 activation height (a fabricated jump across it would skip the TIP-906 transition)
         let jump_to = if net == NetID::Testnet { 300 } else { 5000 };
         let a = move |n: &Node| acts(n, jump_to);
@@ -85,7 +86,8 @@ pub fn run(run: &Run) {
     // testnet: a faucet applied before the TIP-906 activation height is still a duplicate after the chain has crossed it
     {
         let (_w, rootn) = root(NetID::Testnet, 0, false);
-        let eng = Engine::new(run);
+        let mut eng = Engine::new(run);
+        eng.continue_after_mismatch = true;
         let fs = faucets();
         let mut pre: Vec<Action> = vec![Action::Open];
         pre.push(Action::Batch { label: "[faucet-a , faucet-b]".into(), txs: vec![fs[0].1.clone(), fs[1].1.clone()], expect_ok: true });
